@@ -42,8 +42,22 @@ def _trace_job(item):
     return label, res.violated, int(m[-1]) if m else 0, res.distinct, res.generated
 
 
+SIM = dict(PlanName="custom", Budget=10, Cfgs={"default", "imm", "vts", "src_imm"}, Ctxs={"top", "act"}, Fams={"rand"}, TakeNs={1, 2},
+           Oth={"one", "sync"}, Dsps={0})
+
+
+def _sim_job(item):
+    """random pipelines of depth <= 3 grown by Build steps (Subscribe.tla), one per simulated behaviour; the interpreter is
+    deterministic, so the terminal state of a behaviour is the scenario's whole allowed set"""
+    label, num, seed = item
+    res = tlc.run("Subscribe", tlc.cfg_text(dict(SIM, **G0), invariants=INVS + ["Export"]), workers=1, timeout=3000, xmx="3g",
+                  simulate=f"num={num}", depth=3000, seed=seed, allow_violation=False)
+    res.raw = ""
+    return label, res, len(res.lines)
+
+
 def _any_job(item):
-    return _tlc_job(item[1:]) if item[0] == "export" else _trace_job(item[1:])
+    return {"export": _tlc_job, "trace": _trace_job, "sim": _sim_job}[item[0]](item[1:])
 
 
 def run(tier: str) -> int:
@@ -64,14 +78,18 @@ def run(tier: str) -> int:
     else:
         import multiprocessing as mp
         with mp.get_context("fork").Pool(3) as pool:
-            allres = pool.map(_any_job, [("export", lbl, c, timeout) for lbl, c in plan] + [("trace", lbl, c) for lbl, c in TRACES], chunksize=1)
+            allres = pool.map(_any_job, [("export", lbl, c, timeout) for lbl, c in plan] + [("sim", "simulate random depth-3 pipelines", 8000, ck.seed + 11)]
+                              + [("trace", lbl, c) for lbl, c in TRACES], chunksize=1)
+        plan = plan + [("sim", None)]
     results, traces = allres[:len(plan)], allres[len(plan):]
     lines = []
     for label, res, ninit in results:
         ck.add_tlc(res, "design+export " + label)
         # the model is deterministic per scenario and Terminal states are its only states without a successor:
         # one export line per initial state <=> every scenario reaches `returned` or `exhausted`
-        if ninit != len(res.lines):
+        if label.startswith("simulate"):
+            ck.note("simulated_pipelines", len(core.group_allowed(res.lines)))
+        elif ninit != len(res.lines):
             raise RuntimeError(f"{label}: {ninit} scenarios but {len(res.lines)} terminal states exported")
         lines += res.lines
     groups = core.group_allowed(lines)
